@@ -248,6 +248,84 @@ def step (C : Cfg) (s : St) (dt : Rat) : St :=
   let s2 := (ns.filter (fun n => !isMg C n)).foldl (fun s n => distLoop C s n dt) s1
   (ns.filter (fun n => isMg C n)).foldl (fun s n => mgLoop C s n dt) s2
 
+/-! ### ICT-based control (MainController in service, sensors and intelligent switches in service)
+
+The automatic loops have the structure of the manual ones; what differs is how long the sectioning
+takes: the manual sectioning time is added (not set) once when some line of the faulted section has
+no sensor the controller can reach, and once more when some disconnector of the section cannot be
+operated remotely.  What the controller can reach in an increment is an input (`Comm`), computed by
+the ICT reachability routine (C16).  Counterpart of
+  DistributionController / MicrogridController: check_sensors, run_control_loop, check_circuitbreaker
+  Section.connect, Section.get_disconnect_time, MainController.run_control_loop (state OK). -/
+
+structure Comm where
+  sensor : List Bool      -- per line: it has a sensor and the sensor answers
+  iswitch : List Bool     -- per disconnector: it has an intelligent switch and the switch answers
+deriving Repr, Inhabited
+
+def needSens (C : Cfg) (cm : Comm) (k : Nat) : Bool := (C.secs.getD k default).lines.any (fun l => !gb cm.sensor l)
+
+def needSw (C : Cfg) (cm : Comm) (k : Nat) : Bool :=
+  (C.secs.getD k default).switches.any (fun sw => match sw with | .discon d => !gb cm.iswitch d | .breaker _ => false)
+
+/-- Section.get_disconnect_time -/
+def disconnectTime (C : Cfg) (cm : Comm) (k : Nat) : Rat := if needSw C cm k then C.T else 0
+
+/-- check_sensors (flag first, then reconnect) -/
+def checkSensors (C : Cfg) (s : St) (n : Nat) (cm : Comm) : St :=
+  let nc := C.nets.getD n default
+  let connSecs := nc.secs.filter (fun k => gb s.secConn k)
+  let discSecs := nc.secs.filter (fun k => !gb s.secConn k)
+  let s1 := connSecs.foldl (fun s k =>
+    let sc := C.secs.getD k default
+    if anyFailed s sc.lines then
+      let t := (if needSens C cm k then C.T else 0) + disconnectTime C cm k
+      let s' := { s with secConn := s.secConn.set k false,
+                         failedSecs := s.failedSecs.set n (addUnique (s.failedSecs.getD n []) k),
+                         timer := s.timer.set n (gr s.timer n + t) }
+      sc.lines.foldl (fun s l => { s with rem := s.rem.set l (gr s.rem l + disconnectTime C cm k) }) s'
+    else s) s
+  discSecs.foldl (fun s k =>
+    let sc := C.secs.getD k default
+    if anyFailed s sc.lines then s
+    else
+      let s' := secConnectManually C s k
+      { s' with failedSecs := s'.failedSecs.set n ((s'.failedSecs.getD n []).filter (· != k)) }) s1
+
+/-- DistributionController.run_control_loop -/
+def distLoopA (C : Cfg) (s : St) (n : Nat) (dt : Rat) (cm : Comm) : St :=
+  let nc := C.nets.getD n default
+  let s1 := { s with timer := s.timer.set n (tick (gr s.timer n) dt) }
+  let s2 := if gb s1.cbOpen nc.cb && gr s1.timer n ≤ 0 then { s1 with check := s1.check.set n true } else s1
+  let s3 := if gb s2.check n then
+      let a := checkSensors C s2 n cm
+      let b := nc.children.foldl (fun s m =>
+        if gb s.cbOpen (C.nets.getD m default).cb then { s with pTimer := s.pTimer.set m (gr s.timer n) } else s) a
+      { b with check := b.check.set n false }
+    else s2
+  checkBreakerManually C s3 n
+
+/-- MicrogridController.run_control_loop -/
+def mgLoopA (C : Cfg) (s : St) (n : Nat) (dt : Rat) (cm : Comm) : St :=
+  let nc := C.nets.getD n default
+  let t1 := tick (gr s.timer n) dt
+  let t2 := if gr s.pTimer n > t1 then gr s.pTimer n else t1
+  let s1 := { s with timer := s.timer.set n t2, pTimer := s.pTimer.set n (tick (gr s.pTimer n) dt) }
+  let s2 := if gb s1.cbOpen nc.cb && gr s1.timer n ≤ 0 then { s1 with check := s1.check.set n true } else s1
+  let s3 := if gb s2.check n then
+      let a := checkSensors C s2 n cm
+      { a with check := a.check.set n false }
+    else s2
+  checkBreakerManually C s3 n
+
+/-- one increment under ICT-based control -/
+def stepA (C : Cfg) (s : St) (dt : Rat) (cm : Comm) : St :=
+  let s1 := (List.range C.lines.length).foldl (fun s l => lineUpdate C s l dt) s
+  let ns := List.range C.nets.length
+  let s2 := (ns.filter (fun n => !isMg C n)).foldl (fun s n => distLoopA C s n dt cm) s1
+  (ns.filter (fun n => isMg C n)).foldl (fun s n => mgLoopA C s n dt cm) s2
+
+
 /-! ### the observed properties, as executable predicates -/
 
 /-- C05: whenever a network's breaker is closed, no failed line of that network is in service -/
